@@ -51,6 +51,10 @@ def gen_cases(tier, seed):
     # streams before it reads any (to walk them side by side)
     for i in range({'quick': 24, 'thorough': 400}[tier]):
         yield {'family': 'held_streams', 'idx': 5 * 10 ** 6 + i, 'seed': seed}
+    # a step that keeps rows for later (duplicate to the end, with / without spill batches) followed by a consumer that
+    # stops reading early: chained lazily or evaluated one link at a time, the kept copy is complete
+    for i in range({'quick': 8, 'thorough': 48}[tier]):
+        yield {'family': 'keeper_then_early_stop', 'idx': 6 * 10 ** 6 + i, 'seed': seed}
     # the same rejection of alien links with assertions disabled (python -O)
     yield {'family': 'alien_optimized', 'idx': 10 ** 6, 'seed': seed}
 
@@ -335,10 +339,17 @@ def run_repeated_step(case):
             return [dsl.build_source(extra)]
         return []
 
+    # how the links are grouped into nested Flows means nothing: stages that each end with the step, stages grouped into
+    # a Flow of their own
+    grouping = boot.rng(case['seed'], 'C01', 'grouping', case['idx']).choice(['flat', 'flat', 'stages', 'stages_grouped'])
+
     def run(shared):
         first = REPEATABLE[op](d)
         second = first if shared else REPEATABLE[op](d)
         steps = [dsl.build_source(t) for t in tables] + [first] + mid() + [second]
+        if shared and grouping != 'flat':
+            stages = [d.Flow(first), d.Flow(*(mid() + [second]))]
+            steps = [dsl.build_source(t) for t in tables] + (stages if grouping == 'stages' else [d.Flow(*stages)])
         with boot.quiet():
             results, dp, _ = d.Flow(*steps).results(on_error=None)
         return outcome(dp.descriptor, results)
@@ -349,20 +360,21 @@ def run_repeated_step(case):
         dd = diff(ref, got)
         if dd:
             viol.append({'kind': 'repeated_step_object', 'mech': 'repeated_step_object/differs',
-                         'msg': 'one %s object at two positions (%s between) gives a different outcome than two equal '
-                         'objects: %s' % (op, middle, dd[:400])})
+                         'msg': 'one %s object at two positions (%s between, grouping %s) gives a different outcome than two equal '
+                         'objects: %s' % (op, middle, grouping, dd[:400])})
     except Exception as e:
         c = getattr(e, 'cause', e)
         if isinstance(c, (ValueError, AssertionError)) and 'more than once' in str(c):
             counters['links_rejected'] += 1     # refused with a clear error naming the reuse: accepted
         else:
             viol.append({'kind': 'repeated_step_object', 'mech': 'repeated_step_object/failed',
-                         'msg': 'one %s object at two positions (%s between): the chained run fails with %s: %s although '
+                         'msg': 'one %s object at two positions (%s between, grouping %s): the chained run fails with %s: %s although '
                          'every link is a valid step and the same links evaluated one at a time succeed'
-                         % (op, middle, type(c).__name__, str(c)[:200])})
+                         % (op, middle, grouping, type(c).__name__, str(c)[:200])})
     return dict(nontrivial=True, violations=viol, counters=counters,
-                cov={'op_x_position': {}, 'callable_shape': {}, 'strategy': {'repeated_step_object/%s/%s' % (op, middle): 1}},
-                sample={'repeated': op, 'between': middle})
+                cov={'op_x_position': {}, 'callable_shape': {}, 'strategy': {'repeated_step_object/%s/%s' % (op, middle): 1,
+                                                                             'repeated_step_object/grouping/' + grouping: 1}},
+                sample={'repeated': op, 'between': middle, 'grouping': grouping})
 
 
 def _ratio(row):
@@ -541,6 +553,13 @@ def run_case(case):
             # would now add a second one - an ill-formed program)
             s2 = [x for x in s2 if not (x['op'] == 'add_field' and x.get('name') == 'arr')]
             specs = s1 + [{'op': 'user', 'fn': 'u_arr_append', 'form': 'function'}] + s2
+    elif fam == 'keeper_then_early_stop':
+        tables = dsl.initial_tables(rng, nres=rng.choice([1, 2]), sizes=(3, 25, 101))
+        k = case['idx'] % 8
+        specs = [{'op': 'duplicate', 'res': tables[0]['name'], 'target': 'dup7', 'to_end': k % 2 == 0, 'batch': [1, 2, 1000][k % 3]},
+                 {'op': 'user', 'fn': ['u_rows_first2', 'u_rows_break3'][(k // 2) % 2], 'form': 'function'}]
+        if k >= 4:
+            specs.insert(1, {'op': 'user', 'fn': 'u_bump_n', 'form': 'function'})
     else:
         tables, specs, _ = dsl.gen_program(rng)
     alien = None
